@@ -1,5 +1,5 @@
 #!/usr/bin/env python3
-"""try_translator.py [--only name,name] [--checks C02,C20,...] [--all-checks name,name]
+"""try_translator.py [--only name,name] [--checks C02,C20,...] [--all-checks name,name] [--translator-only] | --table
 
 Demonstration of the two-stage translator (DESIGN.md 1.3a, 6.6).  Every directory under
 seeded/translator/ holds a patch of the repository:
@@ -38,6 +38,29 @@ def sh(cmd, cwd=None, env=None, timeout=3000):
     return p.returncode, p.stdout + p.stderr
 
 
+TRANSLATOR_ONLY = """
+import json, os, sys
+sys.path.insert(0, os.path.join(%r, "tools"))
+import vlib
+ctx = vlib.Ctx("SETUP", "quick", 0)
+with vlib.Lock():
+    ok = vlib.step_harness(ctx)
+    vlib.step_tables(ctx, ok)
+info = ctx.tables_info or {}
+print(json.dumps({"harness": ok, "sections_not_static": {k: v for k, v in info.get("sections", {}).items() if v not in ("static", "static+probe-agree")},
+                  "failed": info.get("failed", {}), "tripped": sorted(info.get("tripped", {}))}))
+"""
+
+
+def translator_only(copy):
+    """harness build + the two-stage translator against the copy: which sections left the static route, which tripwires tripped"""
+    rc, o = sh([sys.executable, "-c", TRANSLATOR_ONLY % V], cwd=V, env={"VERIF_REPO": copy})
+    try:
+        return json.loads(o.strip().split("\n")[-1])
+    except ValueError:
+        return {"error": o[-400:]}
+
+
 def table():
     """markdown table of the recorded results (seeded/translator/*/meta.json)"""
     print("| patch | what | sections that left the static route | quiet | VIOLATION (concrete input) | VIOLATION (no-failing-input-found) |")
@@ -52,7 +75,17 @@ def table():
         by = {"quiet": [], "violation-with-input": [], "violation-no-input": []}
         for c, v in sorted(ch.items()):
             by[v["verdict"]].append(c + ("" if v["ok"] else " (UNEXPECTED)"))
-        routes = ", ".join(f"{k}: {v}" for k, v in sorted(r.get("sections_not_static", {}).items())) or "—"
+        rp = os.path.join(D, name, "try_refactor_meta.json")
+        if not ch and os.path.exists(rp):       # run by tools/try_refactor.py: all registered checks
+            rm = json.load(open(rp))
+            by["quiet"] = [f"all {len(rm['checks_run']) - len(rm['false_alarms'])} of {len(rm['checks_run'])}"]
+            by["violation-no-input"] = sorted(rm["false_alarms"])
+        elif len(by["quiet"]) == 20:
+            by["quiet"] = ["all 20 of 20"]
+        tr = m.get("translator", r)
+        routes = ", ".join(f"{k}: {v}" for k, v in sorted(tr.get("sections_not_static", {}).items())) or "—"
+        if tr.get("tripped"):
+            routes += "; tripwires tripped: " + ", ".join(tr["tripped"])
         print(f"| {name} | {m.get('what', '')} | {routes} | {' '.join(by['quiet']) or '—'} | {' '.join(by['violation-with-input']) or '—'} | "
               f"{' '.join(by['violation-no-input']) or '—'} |")
 
@@ -65,6 +98,7 @@ def main():
     only = None
     checks = DEFAULT_CHECKS
     all_for = []
+    tr_only = False
     i = 0
     while i < len(args):
         if args[i] == "--only":
@@ -73,6 +107,9 @@ def main():
             checks = args[i + 1].split(",")
         elif args[i] == "--all-checks":
             all_for = args[i + 1].split(",")
+        elif args[i] == "--translator-only":
+            tr_only = True
+            i -= 1
         else:
             print(__doc__)
             return 2
@@ -93,6 +130,12 @@ def main():
         if rc != 0:
             print(f"{name}: patch does not apply: {o[-300:]}")
             bad += 1
+            continue
+        meta["translator"] = translator_only(copy)
+        if tr_only:
+            print(f"{name:22s} {json.dumps(meta['translator'])[:300]}")
+            json.dump(meta, open(meta_p, "w"), indent=1, sort_keys=True)
+            shutil.rmtree(copy, ignore_errors=True)
             continue
         run = every if name in all_for else sorted(set(checks) | expect)
         verdicts = {}
